@@ -177,6 +177,17 @@ reg(r'<&*%s as std::cmp::PartialEq(?:<&*%s>)?>::ne' % (_PRIM, _PRIM), lambda it,
 def m_prim_cmp(it, callee, a, b):
     o = it.ordering(deref_all(a), deref_all(b))
     return SOME(o) if 'partial_cmp' in callee else o
+@model(r'<&*f64 as std::cmp::PartialEq(?:<&*f64>)?>::(eq|ne)', True)
+def m_f64_eq(it, callee, a, b):
+    a, b = deref_all(a), deref_all(b)
+    if isinstance(a, F64Text) and isinstance(b, F64Text):
+        # the shortest decimal text is canonical: equal numbers print the same text
+        if len(a.chars) != len(b.chars): r = False
+        else: r = zand(*[x == y for x, y in zip(a.chars, b.chars)]) if a.chars else True
+    elif isinstance(a, float) and isinstance(b, float): r = (a == b)
+    else: raise Unsupported('f64 comparison of %r and %r' % (type(a).__name__, type(b).__name__))
+    return znot(r) if callee.endswith('ne') else r
+reg(r'<f64 as std::clone::Clone>::clone', lambda it, a: deref_all(a))
 reg(r'<%s as std::clone::Clone>::clone' % _PRIM, lambda it, a: deref_all(a))
 reg(r'<(u8|u16|u32|u64|usize|i32|i64) as std::default::Default>::default', lambda it: 0)
 reg(r'<bool as std::default::Default>::default', lambda it: False)
